@@ -21,8 +21,6 @@
 // OUT OF OR IN CONNECTION WITH THE SOFTWARE OR THE USE OR OTHER DEALINGS IN
 // THE SOFTWARE.
 
-use super::request::is_valid_uri_byte;
-
 #[inline]
 pub fn match_path_vectored(buf: &[u8]) -> usize {
     swar_match_path_vectored(buf)
@@ -94,7 +92,8 @@ fn swar_match_uri_vectored(buf: &[u8]) -> usize {
         let y = x ^ DEL;
         let eq = y.wrapping_sub(ONE) & !y;
 
-        let hit = (lt | eq) & M128;
+        // `| x`: bytes >= 0x80 are not ASCII and must stop the scan as well
+        let hit = (lt | eq | x) & M128;
         if hit != 0 {
             // find the first offending byte in this word and return
             return i + offsetnz(hit);
@@ -102,14 +101,20 @@ fn swar_match_uri_vectored(buf: &[u8]) -> usize {
         i += BLOCK_SIZE;
     }
 
-    // read tail
+    // read tail (same byte class as the block loop above)
     while i < len {
-        if !is_valid_uri_byte(unsafe { *buf.get_unchecked(i) }) {
+        if !is_visible_ascii(unsafe { *buf.get_unchecked(i) }) {
             break;
         }
         i += 1;
     }
     i
+}
+
+// 0x21..=0x7e: the byte class accepted by the block loops
+#[inline(always)]
+fn is_visible_ascii(b: u8) -> bool {
+    b > 0x20 && b < 0x7f
 }
 
 // Adapt block-size to match native register size, i.e: 32bit => 4, 64bit => 8
